@@ -72,6 +72,25 @@ type Ctx struct {
 	SSAPkgs map[string]*ssa.Package
 
 	Scratch []string // directories to remove at exit
+	Cache   map[string]interface{}
+}
+
+// Memo computes a value once per run.
+func (c *Ctx) Memo(key string, f func() interface{}) interface{} {
+	c.mu.Lock()
+	if c.Cache == nil {
+		c.Cache = map[string]interface{}{}
+	}
+	if v, ok := c.Cache[key]; ok {
+		c.mu.Unlock()
+		return v
+	}
+	c.mu.Unlock()
+	v := f()
+	c.mu.Lock()
+	c.Cache[key] = v
+	c.mu.Unlock()
+	return v
 }
 
 func NewCtx(repo, tier, property string, seed int64) *Ctx {
